@@ -250,7 +250,7 @@ let run_session (line : string) : string =
      | _ -> "?")
   | _ -> "?"
 
-let handle (line : string) : string =
+let rec handle (line : string) : string =
   match String.split_on_char ' ' line with
   (* ---------------- C14 vocabulary ---------------- *)
   | ["TAG"; t] ->
@@ -326,6 +326,44 @@ let handle (line : string) : string =
          | "jsonsimple" -> M.render_simple yneg ms
          | _ -> M.render_merged yneg ms) in
        (try "OK " ^ hex_of_string (doc_text tbl doc) with Leaf_fail -> "FAIL")
+     | _ -> "?")
+  (* ---------------- C17: the sequential prediction of every goroutine's work ---------------- *)
+  | "CONC" :: _ ->
+    (match split_on_string_keep " | " line with
+     | _ :: rest -> let body = String.concat " | " rest in
+       String.concat " ## " (List.map handle (split_on_string_keep " ## " body))
+     | _ -> "?")
+  (* ---------------- C15 command line tool ---------------- *)
+  | "CLI" :: _ ->
+    (match split_on_string_keep " | " line with
+     | [hd; ast; conns; table] ->
+       (match String.split_on_char ' ' hd with
+        | ["CLI"; help; version; flagerr; host; user; pass; key; reqsrc; reqhex; outfmt; split; cfg; _pair] ->
+          let tbl = Hashtbl.create 64 in
+          List.iter (fun kv -> match String.index_opt kv '=' with
+            | Some i -> Hashtbl.replace tbl (String.sub kv 0 i) (String.sub kv (i + 1) (String.length kv - i - 1))
+            | None -> if kv <> "" then Hashtbl.replace tbl kv "") (String.split_on_char ' ' table);
+          let yneg s ns = Hashtbl.mem tbl ("yneg:" ^ str_of_z s ^ ":" ^ str_of_z ns) in
+          let bytes_of_str (s : string) = List.init (String.length s) (fun i -> byte_tab.(Char.code s.[i])) in
+          let present b v = if b then bytes_of_str v else [] in
+          let request = if reqsrc = "none" || reqsrc = "badfile" || reqhex = "-" || ast = "-" then None else Some (json_of_sx (sx_of_string ast)) in
+          let i = { M.ci_help = (help = "1"); M.ci_version = (version = "1"); M.ci_flag_error = (flagerr <> "0");
+                    M.ci_host = present (host = "1") "127.0.0.1"; M.ci_port = M.N0;
+                    M.ci_user = present (user = "1" || cfg = "present") "cliuser"; M.ci_pass = present (pass = "1") "cliPa55word";
+                    M.ci_key = present (key = "1") "clikey"; M.ci_request = request;
+                    M.ci_output = (match outfmt with "json" -> n_of_int 0 | "jsonsimple" -> n_of_int 1 | "jsonmerged" | "default" -> n_of_int 2 | _ -> n_of_int 3);
+                    M.ci_split = (split = "1"); M.ci_time = (M.Z0, M.Z0) } in
+          let conns = if String.trim conns = "-" then [] else
+            List.map (fun c -> let c = String.trim c in if c = "." || c = "" then [] else List.map parse_reaction (String.split_on_char ',' c))
+              (split_on_string_keep " / " conns) in
+          let (o, evs) = M.cli_main yneg i conns in
+          let frames = List.filter_map (function M.EvFrame (j, ms) -> Some (Printf.sprintf "FRAME %d %s" (int_of_nat j) (sx_of_msgs ms)) | _ -> None) evs in
+          let (st, out, err) = (match o with
+            | M.CHelp -> ("0", "-", "1")
+            | M.CFail -> ("1", "-", "1")
+            | M.CDoc d -> (try ("0", hex_of_string (doc_text tbl d ^ "\n"), "0") with Leaf_fail -> ("1", "-", "1"))) in
+          Printf.sprintf "status=%s stdout=%s stderr=%s panic=0 || %s" st out err (String.concat " ; " frames)
+        | _ -> "?")
      | _ -> "?")
   (* ---------------- codec ---------------- *)
   | "W" :: key :: iv :: crc :: sec :: nsec :: _ ->
